@@ -7,6 +7,7 @@ import (
 	"go/types"
 	"golang.org/x/tools/go/cfg"
 	"os"
+	"regexp"
 	"strings"
 	"time"
 )
@@ -24,6 +25,7 @@ type Engine struct {
 	wt       map[*types.Func]map[int]bool
 	pin      map[*types.Func]int
 	flowBusy map[*FuncUnit]bool
+	sites    map[*FuncUnit][]engSite
 }
 
 func newEngine(m *Model) *Engine {
@@ -81,6 +83,9 @@ func (e *Engine) flow(u *FuncUnit) *Flow {
 				entry = func(fl *Flow) []*Fact { return keep }
 			}
 		}
+	}
+	if entry == nil && u.Lit == nil {
+		entry = e.callSiteEntry(u)
 	}
 	f := newFlowP(e, u, entry)
 	if os.Getenv("ARTCHECK_DEBUG") != "" {
@@ -718,4 +723,151 @@ func newFlowP(e *Engine, u *FuncUnit, entry func(fl *Flow) []*Fact) *Flow {
 	}
 	defer func() { preFlowHook = nil }()
 	return newFlow(e.m, e.ef, u, entry, e.retBounds, e.resultFresh)
+}
+
+type engSite struct {
+	u    *FuncUnit
+	call *ast.CallExpr
+}
+
+// callSiteEntry: what every caller of an unexported helper knows about the arguments it passes –
+// linear facts over plain variables and their lengths (depth <= len(key)) that hold at every call
+// site – becomes what the helper may assume about its parameters. A piece of a method moved into a
+// function of its own keeps the guards the method established.
+func (e *Engine) callSiteEntry(u *FuncUnit) func(fl *Flow) []*Fact {
+	if u.Decl == nil || u.Decl.Name.IsExported() || u.Type == nil || u.Type.Params == nil || u.Obj == nil {
+		return nil
+	}
+	info := e.m.Info
+	if e.sites == nil {
+		e.sites = map[*FuncUnit][]engSite{}
+		for _, cu := range e.m.Units {
+			if cu.Body == nil {
+				continue
+			}
+			cu := cu
+			ast.Inspect(cu.Body, func(n ast.Node) bool {
+				if lit, ok := n.(*ast.FuncLit); ok && ast.Node(lit) != ast.Node(cu.Lit) {
+					return false
+				}
+				if call, ok := n.(*ast.CallExpr); ok {
+					if t := e.m.calleeUnit(call); t != nil && t.Lit == nil {
+						e.sites[t] = append(e.sites[t], engSite{cu, call})
+					}
+				}
+				return true
+			})
+		}
+	}
+	sites := e.sites[u]
+	if len(sites) == 0 {
+		return nil
+	}
+	var params []*types.Var
+	for _, f := range u.Type.Params.List {
+		for _, nm := range f.Names {
+			v, _ := info.Defs[nm].(*types.Var)
+			params = append(params, v)
+		}
+	}
+	if e.flowBusy == nil {
+		e.flowBusy = map[*FuncUnit]bool{}
+	}
+	if e.flowBusy[u] {
+		return nil
+	}
+	e.flowBusy[u] = true
+	defer delete(e.flowBusy, u)
+	idRe := regexp.MustCompile(`[A-Za-z_][A-Za-z0-9_]*#[0-9]+`)
+	var common map[string]Lin
+	for _, s := range sites {
+		if s.u == u || e.flowBusy[s.u] {
+			return nil
+		}
+		cfl := e.flow(s.u)
+		var at *FactSet
+		cfl.walk(func(n ast.Node, fs *FactSet, stmt ast.Node, b *cfg.Block) {
+			if n == ast.Node(s.call) && at == nil {
+				at = fs
+			}
+		})
+		if at == nil {
+			return nil
+		}
+		rename := map[string]string{}
+		for i, a := range s.call.Args {
+			if i >= len(params) || params[i] == nil {
+				continue
+			}
+			if av := identVar(info, a); av != nil {
+				rename[varID(av)] = varID(params[i])
+			}
+		}
+		here := map[string]Lin{}
+		for _, f := range at.m {
+			if f.Kind != FLin {
+				continue
+			}
+			nl := Lin{c: f.Lin.c, t: map[string]int64{}}
+			ok := true
+			for atom, coef := range f.Lin.t {
+				if strings.ContainsAny(atom, ".[*&") {
+					ok = false
+					break
+				}
+				na := idRe.ReplaceAllStringFunc(atom, func(id string) string {
+					if to, has := rename[id]; has {
+						return to
+					}
+					ok = false
+					return id
+				})
+				if !ok {
+					break
+				}
+				nl.t[na] += coef
+			}
+			if ok && len(nl.t) > 0 {
+				here[nl.key()] = nl
+			}
+		}
+		if common == nil {
+			common = here
+		} else {
+			for k := range common {
+				if _, has := here[k]; !has {
+					delete(common, k)
+				}
+			}
+		}
+		if len(common) == 0 {
+			return nil
+		}
+	}
+	if len(common) == 0 {
+		return nil
+	}
+	lins := make([]Lin, 0, len(common))
+	for _, k := range sortedKeys(common) {
+		lins = append(lins, common[k])
+	}
+	return func(fl *Flow) []*Fact {
+		var out []*Fact
+		for _, l := range lins {
+			ft := &Fact{Kind: FLin, Lin: l, Origin: fmt.Sprintf("holds at each of the %d call sites of %s", len(sites), u.Name), objs: map[*types.Var]bool{}, derefs: map[*types.Var]bool{}}
+			for _, p := range params {
+				if p == nil {
+					continue
+				}
+				for atom := range l.t {
+					if strings.Contains(atom, varID(p)) {
+						ft.objs[p] = true
+					}
+				}
+			}
+			ft.raw = "lin:" + l.key()
+			out = append(out, ft)
+		}
+		return out
+	}
 }
